@@ -1,7 +1,9 @@
 #!/bin/sh
 # usage: tools/seedrun.sh <seed dir with patch.diff> [PROP ...]   - apply to /repo, run the checks, undo
+# (the undo runs from a trap, so it also happens when the caller's pipe closes early)
 d=$1; shift
 if ! git -C /repo diff --quiet; then echo "repo dirty"; exit 3; fi
+trap 'git -C /repo checkout -- . 2>/dev/null' EXIT INT TERM PIPE HUP
 git -C /repo apply "$d/patch.diff" || { echo "patch does not apply"; exit 3; }
 for p in "$@"; do
   timeout 600 /verif/check $p > /tmp/seedrun.$p.out 2>&1; rc=$?
